@@ -158,14 +158,14 @@ def run_attr_case(ctx, d):
     r_hist2 = seeded(lambda: obj(xf, yf).numpy())
     fresh = seeded(lambda: build_attr(name, model, kind, cfg))
     r_fresh = seeded(lambda: fresh(xf, yf).numpy())
-    tol = dict(rtol=2e-4, atol=2e-5) if name in ("KernelShap",) else dict(rtol=1e-6, atol=1e-7)
+    tol = dict(rtol=2e-4, atol=2e-5) if name in ("KernelShap",) else dict(rtol=1e-5, atol=1e-6)
     ctx.case(d, len(calls) >= 2 and float(np.ptp(r_fresh)) > 0)
     ctx.count("method", name)
     ctx.count("history_len", len(calls))
-    ctx.check_prop("history-independent", r_hist.shape == r_fresh.shape and bool(np.allclose(r_hist, r_fresh, **tol)), d,
+    ctx.check_prop("history-independent", r_hist.shape == r_fresh.shape and bool(np.allclose(r_hist, r_fresh, equal_nan=True, **tol)), d,
                    {"after_history": r_hist.reshape(-1)[:6].tolist(), "fresh": r_fresh.reshape(-1)[:6].tolist(),
                     "history_N": d["history_N"]}, signature="history:" + name)
-    ctx.check_prop("idempotent", bool(np.allclose(r_hist, r_hist2, **tol)), d,
+    ctx.check_prop("idempotent", bool(np.allclose(r_hist, r_hist2, equal_nan=True, **tol)), d,
                    {"first": r_hist.reshape(-1)[:6].tolist(), "second": r_hist2.reshape(-1)[:6].tolist()})
     w1 = model.get_weights()
     ctx.check_prop("model-not-modified", all(np.array_equal(a, b) for a, b in zip(w0, w1)), d, {})
@@ -254,12 +254,12 @@ def run_metric_case(ctx, d):
     r_hist2 = seeded(lambda: float(obj(a)))
     fresh = seeded(build)
     r_fresh = seeded(lambda: float(fresh(a)))
-    tol = dict(rtol=1e-4, atol=1e-5) if name == "MuFidelity" else dict(rtol=1e-6, atol=1e-7)
+    tol = dict(rtol=1e-4, atol=1e-5) if name == "MuFidelity" else dict(rtol=1e-5, atol=1e-6)
     ctx.case(d, k >= 2)
     ctx.count("metric", name)
-    ctx.check_prop("history-independent", bool(np.isclose(r_hist, r_fresh, **tol)), d,
+    ctx.check_prop("history-independent", bool(np.isclose(r_hist, r_fresh, equal_nan=True, **tol)), d,
                    {"after_history": r_hist, "fresh": r_fresh}, signature="history:" + name)
-    ctx.check_prop("idempotent", bool(np.isclose(r_hist, r_hist2, **tol)), d, {"first": r_hist, "second": r_hist2})
+    ctx.check_prop("idempotent", bool(np.isclose(r_hist, r_hist2, equal_nan=True, **tol)), d, {"first": r_hist, "second": r_hist2})
     ctx.check_prop("inputs-not-modified", bool(np.array_equal(x, xc) and np.array_equal(y, yc)), d, {})
 
 
